@@ -298,6 +298,24 @@ fn internal_events(raw: Vec<String>, am: &AddrMap<Value>, by_addr: &std::collect
                 let (Some(l), Some(r), Some(res)) = (operand_sval(&e["operands"][0]), operand_sval(&e["operands"][1]), e["result"].as_bool()) else { continue };
                 out.push(json!({"ev": "cmp", "op": e["op"], "l": l, "r": r, "result": res}));
             }
+            Some("fn") => {
+                // arguments and result of a function extension, in the specification's encoding
+                let conv = |o: &Value| -> Option<Value> {
+                    match o["kind"].as_str()? {
+                        "value" => Some(json!({"kind": "value", "n": 1, "v": SVal::from_value(&o["value"])?})),
+                        "nothing" => Some(json!({"kind": "nothing", "n": 0, "v": SVal::blank("nothing")})),
+                        "nodes" => {
+                            let n = o["n"].as_u64()?;
+                            let v = if n == 1 { SVal::from_value(&o["values"][0])? } else { SVal::blank("nothing") };
+                            Some(json!({"kind": "nodes", "n": n, "v": v}))
+                        }
+                        _ => None,
+                    }
+                };
+                let args: Option<Vec<Value>> = e["args"].as_array().map(|a| a.iter().map(conv).collect()).unwrap_or(None);
+                let (Some(args), Some(res)) = (args, conv(&e["result"])) else { continue };
+                out.push(json!({"ev": "fn", "name": e["name"], "args": args, "result": res}));
+            }
             Some("seg") if e["depth"].as_u64() == Some(1) => {
                 let conv = |v: &Value| -> Option<Vec<Loc>> {
                     v.as_array()?.iter().map(|a| by_addr.get(&(a.as_u64()? as usize)).cloned()).collect()
